@@ -14,7 +14,7 @@ SHARD_TIMEOUT = {'quick': 300, 'thorough': 1500}
 CFG = {
     'monitors': ['atomic', 'commit'],
     'deciding_counters': ['atomic.failed_calls_judged'],
-    'n': {'quick': 150, 'thorough': 1000},
+    'n': {'quick': 500, 'thorough': 1000},
     'ops': {'quick': 30, 'thorough': 60},
     'invalid_rate': 0.45,
     'stale_rate': 0.08,
@@ -24,7 +24,7 @@ CFG = {
 
 SMALL = {
     'templates': ['m2m', 'composite', 'mixed_cascade', 'o2m_req_nocascade', 'o2o_req'],
-    'budget': {'quick': 9000, 'thorough': 160000},
+    'budget': {'quick': 24000, 'thorough': 160000},
     'monitors': CFG['monitors'],
 }
 
